@@ -27,10 +27,11 @@ O(f) == [name |-> "o" \o f.name, alias |-> IF f.alias = "" THEN "" ELSE "o" \o f
 
 \* "inherit": the fields and the validators are declared by a base class WITHOUT class aliaser, the class
 \* aliaser sits on the (otherwise empty) subclass that is (de)serialized: it is the one that applies
+\* "generic": the class is Generic[T] and every view is taken on its SPECIALISED form Inner[int]: same names
 Cfgs ==
   {[struct |-> st, ocal |-> "none", ical |-> ic, f1 |-> a, f2 |-> b, g |-> F("own_f", "", TRUE, TRUE),
     link |-> F("the_link", "", TRUE, TRUE), call |-> dy[1], glob |-> dy[2]]
-      : st \in {"plain", "inherit"}, ic \in Cals, a \in F1s, b \in F2s, dy \in Dyns}
+      : st \in {"plain", "inherit", "generic"}, ic \in Cals, a \in F1s, b \in F2s, dy \in Dyns}
   \cup
   {[struct |-> "nested", ocal |-> oc, ical |-> ic, f1 |-> a, f2 |-> b, g |-> gg, link |-> l, call |-> dy[1], glob |-> dy[2]]
       : oc \in Cals, ic \in Cals, a \in F1s, b \in F2s, gg \in Gs, l \in Ls, dy \in Dyns}
